@@ -267,6 +267,53 @@ def wl_partition(ctx, rng, i):
                     ctx.violation("navigation-raised", "composite query with attached filter raised %s" % type(e).__name__, dict(c2, exception=repr(e), attached=fdesc(f)))
                 finally:
                     cds.filters.remove(to_lib(f))
+        # membership history: members detached and re-attached (also twice, also while absent); the composite answers as the
+        # union of whatever is attached *now*
+        if nmem >= 2:
+            cds = stix2.CompositeDataSource()
+            srcs = [members[m][1].source for m in range(nmem)]
+            cds.add_data_sources(srcs)
+            attached = set(range(nmem))
+            ops = []
+            for _ in range(6):
+                m = rng.randrange(nmem)
+                op = rng.choice(["remove", "add", "add", "remove-then-add"])
+                try:
+                    if op == "remove" and m in attached and len(attached) > 1:
+                        cds.remove_data_source(srcs[m].id)
+                        attached.discard(m)
+                    elif op == "add":
+                        cds.add_data_source(srcs[m])          # attaching an attached member again changes nothing
+                        attached.add(m)
+                    elif op == "remove-then-add" and m in attached:
+                        cds.remove_data_sources([srcs[m].id])
+                        cds.add_data_sources([srcs[m]])
+                    else:
+                        continue
+                except Exception as e:
+                    ctx.violation("navigation-raised", "composite membership change %s raised %s" % (op, type(e).__name__), dict(case, exception=repr(e), operations=ops))
+                    break
+                ops.append("%s %d" % (op, m))
+                now = ListModel()
+                for a in sorted(attached):
+                    for j in contents[a].items:
+                        now.add(j)
+                c4 = dict(case, membership_operations=list(ops), attached_now=sorted(attached))
+                try:
+                    with warnings.catch_warnings():
+                        warnings.simplefilter("ignore")
+                        ok = judge_set(ctx, "CompositeDataSource.query() after membership changes", cds.query(), now.items, c4, mech_hint="composite-membership-history")
+                        if len(cds.get_all_data_sources()) != len(attached):
+                            ctx.violation("composite-membership-history", "get_all_data_sources() lists %d members, %d are attached" % (len(cds.get_all_data_sources()), len(attached)), c4)
+                        if ok and now.ids():
+                            sid = rng.choice(now.ids())
+                            g = cds.get(sid)
+                            if g is None or version_instant(norm(g)) != version_instant(now.latest(sid)):
+                                ctx.violation("composite-membership-history", "get() after membership changes is not the newest attached version", dict(c4, id=sid))
+                    ctx.count("membership_changes")
+                except Exception as e:
+                    ctx.violation("navigation-raised", "composite query after membership change raised %s" % type(e).__name__, dict(c4, exception=repr(e)))
+                    break
         # nested federation: an inner composite over the members, itself a member of an outer composite that carries a filter;
         # after queries through the outer one, the inner composite (used directly, or under a second unfiltered parent) must
         # still answer as the plain union
@@ -382,7 +429,7 @@ def wl_factory(ctx, rng, i):
 
 
 WORKLOADS = [
-    Workload("partitions", wl_partition, quick=24, thorough=1500),
+    Workload("partitions", wl_partition, quick=24, thorough=3000),
     Workload("factory", wl_factory, quick=150, thorough=3000),
 ]
 
@@ -396,6 +443,8 @@ def floors(m, tier):
         out.append("fewer than 2000 navigation results judged")
     if c.get("attached_filter_lookups", 0) < 100:
         out.append("composite-attached filters checked on fewer than 100 lookups")
+    if c.get("membership_changes", 0) < 30:
+        out.append("fewer than 30 composite membership changes judged")
     if c.get("nested_federations", 0) < 10:
         out.append("fewer than 10 nested federations")
     if c.get("factory_calls", 0) < 200:
